@@ -280,8 +280,8 @@ func ruleSkipInventory(c *Ctx, r *Report, clause string, table map[string]string
 		desc := "loop skip in " + s.Fn + " over " + s.Over
 		if reason, ok := table[s.Key]; ok {
 			desc += ": " + reason
-		} else if w.decidesOnKnownInputs(c.VerifDir, s.Fn, s.Atoms) {
-			desc += ": not in the table, but it decides only on inputs this function's reviewed branches already decide on (a restructured conditional)"
+		} else if w.restatesTabled(table, s.Fn, skipCondParts(s.Atoms)) && w.decidesOnKnownInputs(c.VerifDir, s.Fn, s.Atoms) {
+			desc += ": not in the table, but it decides only on what the reviewed skips of this function decide on (a restructured conditional)"
 		} else {
 			viol = fmt.Sprintf("%s: %s leaves elements of %s out under a condition [%s] that is not in the reviewed table (tables/skips.json) and decides on inputs the reviewed function never branched on (%v): whatever that loop produces (operations, parameters, properties, imports, entries, comment lines) silently loses the skipped elements", w.pos(s.Pos), s.Fn, s.Over, s.Cond, w.unknownInputs(c.VerifDir, s.Fn, s.Atoms))
 		}
@@ -313,4 +313,49 @@ func loadSkipTable(verifDir string) map[string]string {
 		return map[string]string{}
 	}
 	return t.Skips
+}
+
+// restatesTabled: everything the condition decides on (fields, calls, literals, constants) is
+// decided on by some tabled entry of the same reviewed function (or of a reviewed helper that
+// was inlined into it): merging, splitting, inverting or moving reviewed conditions re-states
+// them; a condition on anything else - also on something the function merely looked at for
+// another purpose - is a new way to leave elements (or the rest of the function) out.
+func (w *World) restatesTabled(table map[string]string, host string, parts []string) bool {
+	var keys []string
+	for _, h := range hostParts(host) {
+		hosts := []string{h}
+		if hfi := w.Funcs[h]; hfi != nil {
+			for _, g := range w.vanishedFns() {
+				if w.absorbedInto(g, hfi) {
+					hosts = append(hosts, g)
+				}
+			}
+		}
+		for k := range table {
+			for _, hh := range hosts {
+				if strings.HasPrefix(k, hh+":") {
+					keys = append(keys, k)
+				}
+			}
+		}
+	}
+	if len(keys) == 0 {
+		return false
+	}
+	for _, p := range parts {
+		if strings.HasPrefix(p, "op:") || p == "const:.true" || p == "const:.false" || p == "lit:true" || p == "lit:false" || p == "lit:nil" || p == "lit:0" {
+			continue
+		}
+		found := false
+		for _, k := range keys {
+			if strings.Contains(k, p) {
+				found = true
+				break
+			}
+		}
+		if !found {
+			return false
+		}
+	}
+	return true
 }
